@@ -8,8 +8,16 @@ from common import Check, coq_eval, parse_defs, parse_nlist, cstr, clist, cbool,
 WORDS = ['FOO', 'BAR', 'KIND', 'A', 'B', 'ALPHA', 'BETA', 'X2', 'MODE', 'FLAG', 'FO', 'FOOD', 'Foo', 'foo', 'Z9']
 INT_TYPES = ['guint8', 'guint16', 'guint32', 'guint64', 'gint8', 'gint16', 'gint32', 'gint64', 'gint', 'guint',
              'glong', 'gulong', 'gsize', 'gssize', 'uint8_t', 'uint16_t', 'uint32_t', 'uint64_t', 'int32_t',
-             'gushort', 'guchar', 'gchar', 'gunichar', 'goffset', 'guintptr', 'gintptr', None, 'FooByte', 'FooWord', 'FooBig', 'FooPlain']
-ALIASES = {'FooByte': 'guint8', 'FooWord': 'guint16', 'FooBig': 'guint64', 'FooPlain': 'gint'}
+             'gushort', 'guchar', 'gchar', 'gunichar', 'goffset', 'guintptr', 'gintptr', None, 'FooByte', 'FooWord', 'FooBig', 'FooPlain',
+             'FooWord2', 'FooByte3']
+ALIASES = {'FooByte': 'guint8', 'FooWord': 'guint16', 'FooBig': 'guint64', 'FooPlain': 'gint', 'FooWord2': 'FooWord', 'FooByte3': 'FooByte2',
+           'FooByte2': 'FooByte'}      # the last three: typedefs of typedefs
+
+
+def alias_base(t):
+    while t in ALIASES:
+        t = ALIASES[t]
+    return t
 VALUES = [0, 1, -1, 255, 256, 300, 65535, 65536, 70000, 2 ** 31, 2 ** 32, 2 ** 32 + 5, -2 ** 31, 2 ** 63, 2 ** 64 - 1,
           2 ** 64, 2 ** 64 + 7, -2 ** 63, -300, 12345678901234567890]
 
@@ -168,7 +176,7 @@ def main(tier, seed):
             ck.failing_input('boolean constant not true/false', dict(value=c['value']), detail=c['obs'])
         elif c['kind'] == 'int':
             # fixed-width unsigned constants wrap modulo their own width (judged without the model)
-            fund = ALIASES.get(c['type'], c['obs'][2])
+            fund = alias_base(c['type']) if c['type'] in ALIASES else c['obs'][2]
             w = {'guint8': 8, 'guint16': 16, 'guint32': 32, 'guint64': 64, 'guint': 32, 'gushort': 16, 'gunichar': 32}.get(fund)
             try:
                 v = int(c['obs'][1])
@@ -209,7 +217,7 @@ def main(tier, seed):
         for i, c in enumerate(kcases):
             if c['kind'] != 'int' or c['obs'] is None:
                 continue
-            fund = ALIASES.get(c['type'], c['obs'][2])
+            fund = alias_base(c['type']) if c['type'] in ALIASES else c['obs'][2]
             try:
                 ev = int(c['obs'][1])
             except ValueError:
